@@ -3619,7 +3619,6 @@ static int bufr_load_datasubsets( FILE *fp, BUFR_Dataset *dts, int lineno, BUFR_
 
       if (ptr[i] == '{')  /* Skip Meta Info */
          {
-         int j = len-1;
          if (debug)
             {
             int slen = strlen( ptr );
@@ -3631,9 +3630,14 @@ static int bufr_load_datasubsets( FILE *fp, BUFR_Dataset *dts, int lineno, BUFR_
             sprintf( errmsg, _("   *** skipping comment: '%s'"), ptr );
             bufr_print_debug( errmsg );
             }
-         while ((ptr[j] != '}') && (j >= i)) --j;
-         i = j;
-         ptr = ptr+i+1;
+         /* skip the leading {...} groups only: the value that follows may itself contain '}' */
+         while (ptr[i] == '{')
+            {
+            while ((ptr[i] != '}') && (i < len)) ++i;
+            if (ptr[i] == '}') ++i;
+            while (isspace(ptr[i]) && (i < len)) ++i;
+            }
+         ptr = ptr+i;
 
          i = 0;
          len = strlen( ptr );
